@@ -48,8 +48,8 @@ Definition all_rdec : list rdec := [RNan; RMethod false; RMethod true; RBound].
 Definition all_xdec : list xdec := [XOk; XInval false; XInval true; XOutside].
 Definition bools : list bool := [false; true].
 Definition all_decs : list dec :=
-  flat_map (fun a => flat_map (fun b => flat_map (fun c => flat_map (fun d => flat_map (fun e =>
-    map (fun f => mkDec a b c d e f) bools) bools) bools) bools) all_xdec) all_rdec.
+  flat_map (fun a => flat_map (fun b => flat_map (fun c => flat_map (fun d => flat_map (fun e => flat_map (fun g =>
+    map (fun f => mkDec a b c d g e f) bools) bools) bools) bools) bools) all_xdec) all_rdec.
 
 Definition step_of (code icode : Z) : fstep :=
   match code with
@@ -64,19 +64,21 @@ Fixpoint dedup (l : list Z) : list Z :=
   | x :: r => if existsb (Z.eqb x) r then dedup r else x :: dedup r
   end.
 
-(* fid 3: (stepcode icode offpos border m) -> the flags the step can produce (all decisions) *)
+(* fid 3: (stepcode icode offpos border m) -> (the flags the step can produce over all decisions,
+          "every += / -= was carry-free for every decision") *)
 Definition do_step (v : value) : value :=
   let s := step_of (as_z (vnth 0 v)) (as_z (vnth 1 v)) in
-  of_zs (dedup (map (fun d => t_step E0 (as_b (vnth 2 v)) (as_b (vnth 3 v)) s d (as_z (vnth 4 v))) all_decs)).
+  VL [of_zs (dedup (map (fun d => t_step E0 (as_b (vnth 2 v)) (as_b (vnth 3 v)) s d (as_z (vnth 4 v))) all_decs));
+      of_b (forallb (fun d => ok_step E0 (as_b (vnth 2 v)) (as_b (vnth 3 v)) s d (as_z (vnth 4 v))) all_decs)].
 
 (* fid 4: () -> (wf_env of the generated data, classes of unjustified repetition) *)
 Definition do_env (_ : value) : value :=
   VL [of_b (wf_env E0); of_zs (unsafe_classes E0)].
 
-(* fid 5: (offpos border ((stepcode icode rcode xcode left fill near reg) ...) m0) -> trace of flags *)
+(* fid 5: (offpos border ((stepcode icode rcode xcode left fill near reg fillm) ...) m0) -> trace of flags *)
 Definition dec_of (v : value) : dec :=
   mkDec (nth (as_nat (vnth 2 v)) all_rdec RNan) (nth (as_nat (vnth 3 v)) all_xdec XOk)
-        (as_b (vnth 4 v)) (as_b (vnth 5 v)) (as_b (vnth 6 v)) (as_b (vnth 7 v)).
+        (as_b (vnth 4 v)) (as_b (vnth 5 v)) (as_b (vnth 8 v)) (as_b (vnth 6 v)) (as_b (vnth 7 v)).
 Fixpoint trace_flags (offpos border : bool) (p : list (fstep * dec)) (m : Z) : list Z :=
   match p with
   | [] => [m]
